@@ -44,7 +44,6 @@ func c13Msg(token string, refused, cut bool) *mail.Msg {
 	if cut {
 		_ = m.To("cut-"+token+"@rcpt.verif.example", "cut-"+token+"b@rcpt.verif.example")
 		m.Subject("subject " + token)
-		m.SetMessageIDWithValue(token + ".mid@sender.verif.example")
 		m.SetBodyString(mail.TypeTextPlain, "body of "+token+"\r\n"+strings.Repeat("line of "+token+" in a message that is cut off\r\n", 1400))
 		return m
 	}
@@ -54,12 +53,37 @@ func c13Msg(token string, refused, cut bool) *mail.Msg {
 		_ = m.To(token+"@rcpt.verif.example", token+"b@rcpt.verif.example")
 	}
 	m.Subject("subject " + token)
-	// nothing random in the content: a generated Message-ID ([A-Za-z0-9_.-]{22}) contains the token
-	// marker "tokg" about once in a million messages, which the mixing oracle would take for another
-	// message's token
-	m.SetMessageIDWithValue(token + ".mid@sender.verif.example")
+	// the Message-ID is left to the library (generated on first render, concurrently for DialAndSend
+	// callers); the mixing oracle skips that one field, whose random part ([A-Za-z0-9_.-]{22}) contains the
+	// token marker "tokg" about once in a million messages
 	m.SetBodyString(mail.TypeTextPlain, "body of "+token+"\r\n"+strings.Repeat("line of "+token+"\r\n", 20))
 	return m
+}
+
+// c13WithoutMessageID drops the Message-ID field (with its continuation lines) from a payload.
+func c13WithoutMessageID(p []byte) []byte {
+	lines := bytes.SplitAfter(p, []byte("\r\n"))
+	var out []byte
+	skipping, inHeader := false, true
+	for _, l := range lines {
+		if inHeader && len(bytes.TrimRight(l, "\r\n")) == 0 {
+			inHeader = false
+		}
+		if inHeader {
+			if len(l) > 0 && (l[0] == ' ' || l[0] == '\t') {
+				if skipping {
+					continue
+				}
+			} else {
+				skipping = len(l) >= 11 && strings.EqualFold(string(l[:11]), "message-id:")
+				if skipping {
+					continue
+				}
+			}
+		}
+		out = append(out, l...)
+	}
+	return out
 }
 
 func c13Run(c c13Case) []*core.Violation {
@@ -186,7 +210,8 @@ func c13Run(c c13Case) []*core.Violation {
 			if !bytes.Contains(t.Payload, []byte("body of "+tok+"\r\n")) || !bytes.Contains(t.Payload, []byte("subject "+tok)) || bytes.Count(t.Payload, []byte("line of "+tok+"\r\n")) != 20 {
 				vs = append(vs, core.V("content-mixed", "the content committed for %s is not that message's complete content (%d bytes)", tok, len(t.Payload)))
 			}
-			if n := bytes.Count(t.Payload, []byte("tokg")); n != bytes.Count(t.Payload, []byte(tok)) {
+			content := c13WithoutMessageID(t.Payload)
+			if n := bytes.Count(content, []byte("tokg")); n != bytes.Count(content, []byte(tok)) {
 				vs = append(vs, core.V("content-mixed", "the content committed for %s contains tokens of other messages", tok))
 			}
 		}
@@ -260,9 +285,21 @@ func c13Gen(t *rapid.T) c13Case {
 
 func TestC13(t *testing.T) {
 	rec := core.Rec("C13")
-	rec.Rule = "rapid draws (goroutines 2..64, 1..4 messages per goroutine, per-call or batched Send on the shared connection, every n-th goroutine using DialAndSend on the same Client, optionally SMTP AUTH (LOGIN, CRAM-MD5 or SCRAM-SHA-256 against a verifying reference server, so that shared authenticator state shows), a per-reply latency jitter plan for the server, GOMAXPROCS in {2, 4, 16}); the binary is built with -race. One run in four mixes in messages whose recipients the server refuses (optionally with the abandoning RSET answered 421 + disconnect): the refused ones must fail cleanly, the others must be unaffected (or, after the disconnect, fail cleanly), and no call may hang. One run in five has every n-th goroutine send 64 KiB messages through DialAndSend whose connection the server closes after 3000 bytes of content: they fail cleanly and nothing of them shows up in anybody else's message. Every message carries a unique token in its sender, recipients, subject and body. " +
+	rec.Rule = "rapid draws (goroutines 2..64, 1..4 messages per goroutine, per-call or batched Send on the shared connection, every n-th goroutine using DialAndSend on the same Client, optionally SMTP AUTH (LOGIN, CRAM-MD5 or SCRAM-SHA-256 against a verifying reference server, so that shared authenticator state shows), a per-reply latency jitter plan for the server, GOMAXPROCS in {2, 4, 16}); the binary is built with -race. One run in four mixes in messages whose recipients the server refuses (optionally with the abandoning RSET answered 421 + disconnect): the refused ones must fail cleanly, the others must be unaffected (or, after the disconnect, fail cleanly), and no call may hang. One run in five has every n-th goroutine send 64 KiB messages through DialAndSend whose connection the server closes after 3000 bytes of content: they fail cleanly and nothing of them shows up in anybody else's message. The first case of every process has all goroutines call DialAndSend at once (cold start: lazily initialised package state is first touched under contention). Every message carries a unique token in its sender, recipients, subject and body. " +
 		"Oracle: per connection, the reference server's automaton sees no interleaved transaction (nested MAIL etc.); every committed payload carries exactly its own envelope and complete content; every token is committed exactly once; every Send returned nil and every Msg is delivered; any report of the Go race detector is a violation. " +
 		"Non-trivial: >= 4 goroutines with jitter enabled. Distinct by the drawn parameters."
 	rec.Assumptions = []string{"the harness does not own the Go scheduler: schedules are varied through GOMAXPROCS, goroutine counts and server latency only", "the race detector only sees the executions that happen"}
-	core.Prop[c13Case]{ID: "C13", Test: "TestC13", Gen: c13Gen, Run: c13Run}.Check(t)
+	p := core.Prop[c13Case]{ID: "C13", Test: "TestC13", Gen: c13Gen, Run: c13Run}
+	if core.ReplayArg == "" {
+		// the very first messages of the process are rendered by concurrent DialAndSend callers: whatever
+		// the library initialises lazily on first use (package-level caches) is initialised under contention
+		cold := c13Case{Goroutines: 16, MsgsPer: 1, DialEvery: 1, Procs: 16, JitterUS: []int{0, 50}}
+		if core.Shard%2 == 1 {
+			cold = c13Case{Goroutines: 12, MsgsPer: 2, DialEvery: 2, Procs: 4, JitterUS: []int{10}}
+		}
+		if v := p.RunOne(cold); v != nil {
+			t.Fatalf("VIOLATION-DETAIL property=C13 %s", v)
+		}
+	}
+	p.Check(t)
 }
